@@ -2,6 +2,7 @@ package props
 
 import (
 	"fmt"
+	"net/netip"
 	"os"
 	"path/filepath"
 	"strings"
@@ -247,7 +248,10 @@ func c13Run(c *core.Ctx, idx int) {
 		q.Host = c13Hosts[c.Rng.Intn(len(c13Hosts))]
 		if c.Rng.Intn(3) == 0 {
 			// Same host without any client data right after one with it.
-			q.ClientName, q.ClientIP, q.Tags, q.DNSType = "", q.ClientIP, nil, 0
+			q.ClientName, q.Tags, q.DNSType = "", nil, 0
+			if c.Rng.Intn(2) == 0 {
+				q.ClientIP = netip.Addr{}
+			}
 		}
 		pool = append(pool, c13Op{Kind: "dns", Req: q})
 	}
@@ -292,27 +296,32 @@ func c13Run(c *core.Ctx, idx int) {
 		derive := c.Rng.Intn(4) == 0 && len(dnsResults)+len(webResults)+len(slices) > 0
 		if derive {
 			// Derived computations on OLD results.
-			switch k := c.Rng.Intn(3); {
-			case k == 0 && len(dnsResults) > 0:
-				r := dnsResults[c.Rng.Intn(len(dnsResults))]
-				_ = r.DNSRewrites()
-				_ = r.DNSRewritesAll()
-				_ = rules.GetDNSBasicRule(r.NetworkRules)
-				hist = append(hist, "derive:DNSRewrites/DNSRewritesAll/GetDNSBasicRule on an old DNSResult")
-			case k == 1 && len(webResults) > 0:
-				r := webResults[c.Rng.Intn(len(webResults))]
-				_ = r.GetBasicResult()
-				_ = r.GetCosmeticOption()
-				hist = append(hist, "derive:GetBasicResult/GetCosmeticOption on an old MatchingResult")
-			case len(slices) > 0:
-				a := slices[c.Rng.Intn(len(slices))]
-				b := slices[c.Rng.Intn(len(slices))]
-				mr := rules.NewMatchingResult(a, b)
-				_ = mr.GetBasicResult()
-				_ = rules.GetDNSBasicRule(a)
-				hist = append(hist, "derive:NewMatchingResult/GetDNSBasicRule on old MatchAll slices")
-			default:
-				derive = false
+			derivePanicked := c.Guard("derived-computation-on-old-result", nil, map[string]any{"list": lines, "history": hist}, func() {
+				switch k := c.Rng.Intn(3); {
+				case k == 0 && len(dnsResults) > 0:
+					r := dnsResults[c.Rng.Intn(len(dnsResults))]
+					_ = r.DNSRewrites()
+					_ = r.DNSRewritesAll()
+					_ = rules.GetDNSBasicRule(r.NetworkRules)
+					hist = append(hist, "derive:DNSRewrites/DNSRewritesAll/GetDNSBasicRule on an old DNSResult")
+				case k == 1 && len(webResults) > 0:
+					r := webResults[c.Rng.Intn(len(webResults))]
+					_ = r.GetBasicResult()
+					_ = r.GetCosmeticOption()
+					hist = append(hist, "derive:GetBasicResult/GetCosmeticOption on an old MatchingResult")
+				case len(slices) > 0:
+					a := slices[c.Rng.Intn(len(slices))]
+					b := slices[c.Rng.Intn(len(slices))]
+					mr := rules.NewMatchingResult(a, b)
+					_ = mr.GetBasicResult()
+					_ = rules.GetDNSBasicRule(a)
+					hist = append(hist, "derive:NewMatchingResult/GetDNSBasicRule on old MatchAll slices")
+				default:
+					derive = false
+				}
+			})
+			if derivePanicked {
+				return
 			}
 		}
 		if !derive {
